@@ -58,6 +58,13 @@ type GraphSpec struct {
 	Nodes      []NodeSpec
 	Root       int
 	InSet      bool // items in a named set (unused members allowed) instead of direct Build arguments
+	Inline     bool // items in an inline wire.NewSet(...) argument of wire.Build
+	PerNode    bool // each node's items in a named set of their own: wire.Build(Set0, Set1, ...)
+	Depth      int  // InSet: wrap the named set in this many further named sets (Set <- Outer1 <- Outer2 ...)
+	PairSets   bool // declare named sets pairwise in one var declaration
+	ExtraDecl  string
+	Second     int // second injector sharing the same items: 0 none, 1 declared after Init, 2 declared before Init
+	SecondRoot int // node returned by the second injector
 	InjMore    bool // injector declares error and cleanup results whether needed or not
 	Split      bool // the items of lib nodes go to a named set declared in the lib package, included by the main set
 	Hist       int
@@ -192,6 +199,10 @@ func (g *GraphSpec) Build() (*ir.Program, []*ir.Type) {
 			items2 = append(items2, items[start:]...)
 			items = items[:start]
 		}
+		if g.PerNode && len(items) > start {
+			own := append([]*ir.Item{}, items[start:]...)
+			items = append(items[:start], ir.SetRef(&ir.Set{Pkg: p, Name: fmt.Sprintf("Set%d", i), Items: own}))
+		}
 	}
 	if g.Split && len(items2) > 0 {
 		items = append(items, ir.SetRef(&ir.Set{Pkg: b.Lib, Name: "LibSet", Items: items2}))
@@ -205,9 +216,16 @@ func (g *GraphSpec) Build() (*ir.Program, []*ir.Type) {
 		extra = g.ExtraItems(b, types)
 	}
 	inj := &ir.Injector{Name: "Init", Out: types[g.Root], Params: params}
-	if g.InSet {
-		inj.Items = []*ir.Item{ir.SetRef(&ir.Set{Pkg: p, Name: "Set", Items: items})}
-	} else {
+	switch {
+	case g.InSet:
+		set := &ir.Set{Pkg: p, Name: "Set", Items: items}
+		for d := 1; d <= g.Depth; d++ {
+			set = &ir.Set{Pkg: p, Name: fmt.Sprintf("Outer%d", d), Items: []*ir.Item{ir.SetRef(set)}}
+		}
+		inj.Items = []*ir.Item{ir.SetRef(set)}
+	case g.Inline:
+		inj.Items = []*ir.Item{ir.InlineSet(&ir.Set{Pkg: p, Items: items})}
+	default:
 		inj.Items = items
 	}
 	inj.Items = append(inj.Items, extra...) // extra items are always direct wire.Build arguments
@@ -229,7 +247,27 @@ func (g *GraphSpec) Build() (*ir.Program, []*ir.Type) {
 			inj.Err, inj.Cleanup = e, cl
 		}
 	}
-	return &ir.Program{Root: p, Injectors: []*ir.Injector{inj}, Hist: g.Hist}, types
+	prog := &ir.Program{Root: p, Injectors: []*ir.Injector{inj}, Hist: g.Hist, ExtraDecl: g.ExtraDecl, PairSets: g.PairSets}
+	if g.Second > 0 {
+		// a second injector over the very same items (shared set objects), asking for another node
+		inj2 := &ir.Injector{Name: "Init2", Out: types[g.SecondRoot], Params: params, Items: inj.Items}
+		probe := *inj2
+		probe.Err, probe.Cleanup = true, true
+		if w := ir.NewModel().Solve(&probe); w.Accepted() {
+			for _, f := range w.Funcs {
+				inj2.Err = inj2.Err || f.Err
+				inj2.Cleanup = inj2.Cleanup || f.Cleanup
+			}
+		} else {
+			inj2.Err, inj2.Cleanup = true, true
+		}
+		if g.Second == 2 {
+			prog.Injectors = []*ir.Injector{inj2, inj}
+		} else {
+			prog.Injectors = []*ir.Injector{inj, inj2}
+		}
+	}
+	return prog, types
 }
 
 // dagAdj: node i depends on lower-numbered nodes selected by mask bits, enumerated
